@@ -37,3 +37,24 @@ pub(crate) fn clock_now() -> Option<chrono::DateTime<chrono::Local>> {
     let now = *CLOCK.lock().unwrap_or_else(|e| e.into_inner());
     now.and_then(|(s, n)| chrono::Local.timestamp_opt(s, n).single())
 }
+
+/// Replacement for the sleep between two polls of the config reloader thread
+/// (`ConfigReloader::run`): when set, the thread calls the hook with the duration
+/// it wants to sleep instead of sleeping, so a test decides when the next poll
+/// happens and sees the interval the loop asked for.  Not set: `thread::sleep`.
+pub type ReloaderSleep = std::sync::Arc<dyn Fn(std::time::Duration) + Send + Sync>;
+
+static RELOADER_SLEEP: Mutex<Option<ReloaderSleep>> = Mutex::new(None);
+
+pub fn set_reloader_sleep(hook: Option<ReloaderSleep>) {
+    *RELOADER_SLEEP.lock().unwrap_or_else(|e| e.into_inner()) = hook;
+}
+
+#[allow(dead_code)]
+pub(crate) fn reloader_sleep(d: std::time::Duration) {
+    let hook = RELOADER_SLEEP.lock().unwrap_or_else(|e| e.into_inner()).clone();
+    match hook {
+        Some(h) => h(d),
+        None => std::thread::sleep(d),
+    }
+}
